@@ -20,6 +20,7 @@ type Lexer struct {
 	file   string
 	peeks  []token.Token
 	isEOF  bool
+	eof    token.Token // the EOF token, returned again by every call after the first
 
 	customs map[string]token.TokenType
 }
@@ -129,6 +130,11 @@ func (l *Lexer) NextToken() token.Token {
 	if len(l.peeks) > 0 {
 		t, l.peeks = l.peeks[0], l.peeks[1:]
 		return t
+	}
+
+	// The source ends at EOF (a NUL byte ends it, too): nothing is lexed after it
+	if l.isEOF {
+		return l.eof
 	}
 
 	l.skipWhitespace()
@@ -350,10 +356,11 @@ func (l *Lexer) NextToken() token.Token {
 		t.Type = token.EOF
 		t.Line = line
 		t.Position = index
-		if !l.isEOF {
-			l.NewLine()
-			l.isEOF = true
-		}
+		t.File = l.file
+		l.NewLine()
+		l.isEOF = true
+		l.eof = t
+		return t
 	case 0x0A: // '\n'
 		t = newToken(token.LF, l.char, line, index)
 	default:
